@@ -487,6 +487,157 @@ theorem C17_require_loaded (fs : FS) (fuel : Nat) (rank : Str → Nat) (s : Repo
   · intro d hd
     exact hp.inv.deps l hl d (by rw [hlt]; exact hd)
 
+/-- `g_irepository_load_typelib` WITHOUT the LAZY flag of a typelib with header `hdr` (which may record
+    dependencies), under the invariant and the guard of `C17_inv_partial`: afterwards the invariant holds,
+    nothing loaded eagerly is lost, and on success the namespace is loaded eagerly at version `hdr.ver`
+    with every recorded dependency of the registered typelib loaded at the recorded version (from the
+    global search path); when the namespace was not registered before (`absent`), what is registered
+    is exactly `hdr`, under the source "<builtin>". -/
+theorem C17_load_loaded (fs : FS) (fuel : Nat) (rank : Str → Nat) (s : Repo) (hdr : Hdr)
+    (hr : Ranked fs rank) (hinv : Inv fs s) (hrank : HdrRanked rank hdr)
+    (hguard : ∀ v, getRegisteredStatus s hdr.ns (some hdr.ver) false ≠ .conflict v)
+    (hst : (loadTypelib fs fuel s hdr false).1.staleKey = false) :
+    Inv fs (loadTypelib fs fuel s hdr false).1 ∧
+    (∀ l ∈ s.typelibs, l ∈ (loadTypelib fs fuel s hdr false).1.typelibs) ∧
+    (∀ tl, (loadTypelib fs fuel s hdr false).2 = .ok tl →
+      ∃ l ∈ (loadTypelib fs fuel s hdr false).1.typelibs, l.tl = tl ∧ l.ns = hdr.ns ∧ l.tl.hdr.ver = hdr.ver ∧
+        (∀ d ∈ l.tl.hdr.deps, DepLoaded (loadTypelib fs fuel s hdr false).1 d) ∧
+        (getRegisteredStatus s hdr.ns (some hdr.ver) false = .absent false →
+          l.tl.hdr = hdr ∧ l.source = builtinSource)) := by
+  have hp := load_post hr fuel s hdr false hinv hrank hguard hst
+  refine ⟨hp.inv, hp.ext, ?_⟩
+  intro tl htl
+  have key : ∃ l ∈ (loadTypelib fs fuel s hdr false).1.typelibs, l.tl = tl ∧ l.ns = hdr.ns ∧
+      l.tl.hdr.ver = hdr.ver ∧
+      (getRegisteredStatus s hdr.ns (some hdr.ver) false = .absent false → l.tl.hdr = hdr ∧ l.source = builtinSource) := by
+    have hsame : getRegisteredStatus { s with nextId := s.nextId + 1 } hdr.ns (some hdr.ver) false
+        = getRegisteredStatus s hdr.ns (some hdr.ver) false := rfl
+    unfold loadTypelib at htl hst ⊢
+    simp only [hsame] at htl hst ⊢
+    cases hstat : getRegisteredStatus s hdr.ns (some hdr.ver) false with
+    | found t =>
+      simp only [hstat, Except.ok.injEq] at htl ⊢
+      subst htl
+      obtain ⟨h1, h2, h3⟩ := status_found hstat
+      rcases h3 with ⟨l, hl, hlt⟩ | ⟨h, _⟩
+      · exact ⟨l, hl, hlt, by unfold Loaded.ns; rw [hlt]; exact h1, by rw [hlt]; exact h2 _ rfl,
+          by intro h; cases h⟩
+      · cases h
+    | conflict v => exact absurd hstat (hguard v)
+    | absent b =>
+      simp only [hstat] at htl hst ⊢
+      obtain ⟨habsE, habsL⟩ := status_absent hstat
+      have hreqOK : ReqOK fs rank (fun s' dn dv => requireInternal fs fuel s' dn (some dv) false s'.searchPath) := by
+        intro s' dn dv hinv' hst'
+        obtain ⟨hp', hok⟩ := require_post hr fuel s' dn (some dv) false s'.searchPath hinv' hst'
+        refine ⟨hp', ?_⟩
+        intro tl' htl'
+        obtain ⟨h1, h2, h3⟩ := hok tl' htl'
+        obtain ⟨l, hl, hlt⟩ := h3 rfl
+        exact ⟨l, hl, by unfold Loaded.ns; rw [hlt]; exact h1, by rw [hlt]; exact h2 dv rfl⟩
+      have hmono : StaleMono (fun s' dn dv => requireInternal fs fuel s' dn (some dv) false s'.searchPath) :=
+        fun s' dn dv hs' => require_stale fs fuel s' dn (some dv) false s'.searchPath hs'
+      obtain ⟨_, hok⟩ := register_post hreqOK hmono { s with nextId := s.nextId + 1 } builtinSource false
+        ⟨s.nextId, hdr⟩ (hinv.congr rfl rfl) (Or.inl rfl) hrank habsE habsL hst
+      obtain ⟨h1, h2⟩ := hok tl htl
+      obtain ⟨l, hl, hlt, hsrc⟩ := h2 rfl
+      subst h1
+      refine ⟨l, hl, hlt, by unfold Loaded.ns; rw [hlt], by rw [hlt], ?_⟩
+      intro hb
+      have hb' : b = false := by injection hb
+      subst hb'
+      refine ⟨by rw [hlt], hsrc ?_⟩
+      -- not in the lazy table either: registered under the source given by load_typelib
+      unfold getRegisteredStatus at hstat
+      simp only [habsE] at hstat
+      cases hL : lookupTbl s.lazy hdr.ns with
+      | none => rfl
+      | some l' => simp [hL] at hstat
+  obtain ⟨l, hl, hlt, hns, hver, habs⟩ := key
+  exact ⟨l, hl, hlt, hns, hver, fun d hd => hp.inv.deps l hl d hd, habs⟩
+
+/-- `g_irepository_enumerate_versions`: every version available on the search path (every file that
+    counts as a version of `ns`, see `C17_latest`) is listed, and whatever is listed is available or is
+    the loaded version.  (The loaded version itself is only ADDED when no other version string is
+    available: `g_list_find_custom (ret, loaded_version, g_str_equal)` finds the first element that
+    DIFFERS — modelled as the code does it, compared with the library on every `versions` call.) -/
+theorem C17_enumerate_versions (fs : FS) (s : Repo) (ns : Str) :
+    (∀ m ∈ allMatches fs ns s.searchPath, m.version ∈ enumerateVersionsQuery fs s ns) ∧
+    (∀ v ∈ enumerateVersionsQuery fs s ns,
+      (∃ m ∈ allMatches fs ns s.searchPath, m.version = v) ∨ getVersion s ns = some v) := by
+  have hmem : ∀ v, v ∈ (enumerateVersions fs ns s.searchPath).reverse.map (·.version) ↔
+      ∃ c ∈ enumerateVersions fs ns s.searchPath, c.version = v := by
+    intro v; simp
+  refine ⟨?_, ?_⟩
+  · intro m hm
+    obtain ⟨c, hc, hv, _⟩ := enumerate_complete fs ns s.searchPath m hm
+    have hin := (hmem m.version).mpr ⟨c, hc, hv⟩
+    unfold enumerateVersionsQuery
+    simp only
+    split
+    · split_ifs
+      · exact hin
+      · exact List.mem_cons_of_mem _ hin
+    · exact hin
+  · intro v hv
+    unfold enumerateVersionsQuery at hv
+    simp only at hv
+    have hcase : ∀ v, v ∈ (enumerateVersions fs ns s.searchPath).reverse.map (·.version) →
+        ∃ m ∈ allMatches fs ns s.searchPath, m.version = v := by
+      intro v hv
+      obtain ⟨c, hc, hcv⟩ := (hmem v).mp hv
+      exact ⟨c, enumerate_sound fs ns s.searchPath c hc, hcv⟩
+    split at hv
+    · rename_i lv hlv
+      split_ifs at hv
+      · exact Or.inl (hcase v hv)
+      · rcases List.mem_cons.mp hv with rfl | h
+        · exact Or.inr hlv
+        · exact Or.inl (hcase v h)
+    · exact Or.inl (hcase v hv)
+
+/-- `g_irepository_require_private` searches the private directory ONLY (the dependencies still come
+    from the global path, see `C17_exact`): for an explicit version not registered yet, the file taken is
+    `dir/ns-v.typelib`; when `dir` has no such file the call fails with NotFound whatever the global
+    search path holds. -/
+theorem C17_private_dir (fs : FS) (fuel : Nat) (s : Repo) (dir ns v : Str) (lazy b : Bool)
+    (hns : ns ≠ selfName) (hst : getRegisteredStatus s ns (some v) lazy = .absent b) :
+    (¬ DirHas fs dir (exactFileName ns v) →
+      requirePrivate fs (fuel + 1) s dir ns (some v) lazy = (s, .error .notFound)) ∧
+    (∀ f, findVersion fs ns v [dir] = some f → f.path = buildFilename dir (exactFileName ns v)) ∧
+    (∀ tl, (requirePrivate fs (fuel + 1) s dir ns (some v) lazy).2 = .ok tl →
+      DirHas fs dir (exactFileName ns v) ∧ tl.hdr.ns = ns ∧ tl.hdr.ver = v) := by
+  have hex := C17_exact fs fuel s ns v lazy b [dir] hns hst
+  have hself : (ns == selfName && v != selfVersion) = false := by simp [hns]
+  have hfind : ∀ f, findVersion fs ns v [dir] = some f →
+      DirHas fs dir (exactFileName ns v) ∧ f.path = buildFilename dir (exactFileName ns v) := by
+    intro f hf
+    simp only [findVersion, hself, Bool.false_eq_true, if_false, findInDirs] at hf
+    cases hd : lookupDir fs dir with
+    | none => simp [hd] at hf
+    | some es =>
+      simp only [hd] at hf
+      cases he : es.find? (fun e => e.name == exactFileName ns v) with
+      | none => simp [he] at hf
+      | some e =>
+        simp only [he, Option.some.injEq] at hf
+        subst hf
+        exact ⟨⟨es, e, hd, List.mem_of_find?_eq_some he, by simpa using List.find?_some he⟩, rfl⟩
+  refine ⟨?_, fun f hf => (hfind f hf).2, ?_⟩
+  · intro hno
+    cases hf : findVersion fs ns v [dir] with
+    | none => exact (hex.1 hf).2
+    | some f => exact absurd (hfind f hf).1 hno
+  · intro tl htl
+    have h2 := hex.2.2 tl htl
+    refine ⟨?_, h2⟩
+    cases hf : findVersion fs ns v [dir] with
+    | none =>
+      have := (hex.1 hf).2
+      unfold requirePrivate at htl
+      rw [this] at htl; cases htl
+    | some f => exact (hfind f hf).1
+
 /-- The transitive dependency query reports only dependency strings that are reachable from the
     namespace through recorded dependencies of loaded typelibs (any fuel, no hypothesis). -/
 theorem C17_dependencies_sound (s : Repo) (fuel : Nat) (ns : Str) (l : List Str)
